@@ -1029,6 +1029,110 @@ pub fn run_c13(ctx: &Ctx) -> i32 {
     finish(ctx, out, fin)
 }
 
+/// A stream of one or two frames whose subframes are built with the public constructors
+/// (`Residual::new`, `FixedLpc::new`, `Lpc::new`, `QuantizedParameters::new`, `Frame::new`) from a
+/// signal this function chooses; returns the case (audio = that signal) and the stream, or `None`
+/// when a residual does not fit the coded range (the draw is skipped, never judged).
+fn constructed_stream(rng: &mut Rng) -> Option<(Case, flacenc::component::Stream)> {
+    use flacenc::component::{ChannelAssignment, FixedLpc, Frame, FrameHeader, FrameOffset, Lpc, QuantizedParameters, Residual, Stream, SubFrame};
+    let channels = *rng.pick(&[1usize, 1, 2, 3]);
+    let bps = *rng.pick(&gen::WIDTHS);
+    let n = *rng.pick(&[16usize, 32, 48, 64, 96, 128, 192, 256, 384, 512, 576, 1024, 1152, 4096]);
+    let nframes = 1 + rng.usize_below(2);
+    let tz = (n.trailing_zeros() as usize).min(15);
+    let lim = 1i64 << (bps - 1);
+    let mut desc = format!("constructed n={n} frames={nframes}:");
+    let mut stream = Stream::new(44100, channels, bps).ok()?;
+    let mut pcm = vec![0i32; n * nframes * channels];
+    for f in 0..nframes {
+        let mut subs: Vec<SubFrame> = vec![];
+        for ch in 0..channels {
+            let po = rng.usize_below(tz + 1);
+            let part_len = n >> po;
+            let lpc = rng.chance(1, 2);
+            let max_order = part_len.min(if lpc { 24 } else { 4 });
+            let min_order = if lpc { 1 } else { 0 };
+            if max_order < min_order {
+                return None;
+            }
+            let order = if rng.chance(1, 2) && part_len <= max_order { part_len } else { rng.urange(min_order, max_order) };
+            // the signal: a sine with a little noise, amplitude well inside the width
+            let amp = (lim as f64) * [0.9, 0.3, 0.02][rng.usize_below(3)];
+            let w = 0.01 + (rng.usize_below(300) as f64) * 0.001;
+            let noise = 1 + rng.usize_below(4) as i64;
+            let sig: Vec<i32> = (0..n)
+                .map(|t| {
+                    let v = (amp * (w * t as f64).sin()) as i64 + rng.range(-noise, noise);
+                    v.clamp(-lim, lim - 1) as i32
+                })
+                .collect();
+            // predictor
+            let (coefs, shift, precision): (Vec<i64>, usize, usize) = if lpc {
+                let precision = rng.urange(2, 15) as usize;
+                let cl = 1i64 << (precision - 1);
+                let coefs: Vec<i64> = (0..order).map(|_| rng.range(-cl, cl - 1)).collect();
+                // keep the prediction gain bounded: sum |c| / 2^shift <= about 4
+                let sum: i64 = coefs.iter().map(|c| c.abs()).sum::<i64>().max(1);
+                let need = (64 - (sum as u64).leading_zeros() as usize).saturating_sub(2);
+                (coefs, need.min(15), precision)
+            } else {
+                (FIXED_COEFS[order][..order].iter().map(|c| *c as i64).collect(), 0, 0)
+            };
+            let nparts = 1usize << po;
+            let mut folded = vec![0u32; n];
+            for t in order..n {
+                let mut pred = 0i64;
+                for (j, c) in coefs.iter().enumerate() {
+                    pred += c * sig[t - 1 - j] as i64;
+                }
+                let e = sig[t] as i64 - (pred >> shift);
+                if e.abs() >= (1 << 22) {
+                    return None;
+                }
+                folded[t] = if e >= 0 { (e as u32) << 1 } else { (((-e) as u32) << 1) - 1 };
+            }
+            let mut params = vec![0u8; nparts];
+            let mut q = vec![0u32; n];
+            let mut r = vec![0u32; n];
+            for p in 0..nparts {
+                let (a, b) = ((p * part_len).max(order), (p + 1) * part_len);
+                let mx = folded[a.min(b)..b].iter().copied().max().unwrap_or(0);
+                let bits = 32 - mx.leading_zeros() as usize;
+                let k = if rng.chance(1, 6) { rng.usize_below(15) } else { bits.saturating_sub(rng.usize_below(4)) }.min(14);
+                // bound the unary part: at most 2^9 per sample
+                let k = k.max(bits.saturating_sub(9)).min(14);
+                params[p] = k as u8;
+                for t in a.min(b)..b {
+                    q[t] = folded[t] >> k;
+                    r[t] = folded[t] & ((1u32 << k) - 1);
+                }
+            }
+            let res = Residual::new(po, n, order, &params, &q, &r).ok()?;
+            let sf: SubFrame = if lpc {
+                let c16: Vec<i16> = coefs.iter().map(|c| *c as i16).collect();
+                let qp = QuantizedParameters::new(&c16, order, shift as i8, precision).ok()?;
+                Lpc::new(&sig[..order], qp, res, bps).ok()?.into()
+            } else {
+                FixedLpc::new(&sig[..order], res, bps).ok()?.into()
+            };
+            subs.push(sf);
+            desc.push_str(&format!(" [{} order={order} po={po} part_len={part_len} {}]", if lpc { "lpc" } else { "fixed" }, if order == part_len && order > 0 { "first_partition_all_warmup" } else { "" }));
+            for t in 0..n {
+                pcm[(f * n + t) * channels + ch] = sig[t];
+            }
+        }
+        let h = FrameHeader::new(n, ChannelAssignment::Independent(channels as u8), bps, 44100, FrameOffset::Frame(f as u32)).ok()?;
+        stream.add_frame(Frame::new(h, subs.into_iter()).ok()?);
+    }
+    stream.stream_info_mut().set_block_sizes(n, n).ok()?;
+    stream.stream_info_mut().set_total_samples(n * nframes);
+    let audio = Audio { channels, bps, rate: 44100, samples: pcm, recipe: desc };
+    let case = Case { audio: Arc::new(audio), cfg: config::Encoder::default(), block: n, mode: FillMode::Int, hint: false };
+    Some((case, stream))
+}
+
+const FIXED_COEFS: [[i32; 4]; 5] = [[0, 0, 0, 0], [1, 0, 0, 0], [2, -1, 0, 0], [3, -3, 1, 0], [4, -6, 4, -1]];
+
 pub fn run_c15(ctx: &Ctx) -> i32 {
     let mut out = Outcome::default();
     let mut subs = std_subs(ctx, 70, 40);
@@ -1072,6 +1176,42 @@ pub fn run_c15(ctx: &Ctx) -> i32 {
                 }
             }
             Err(e) => report_obs_err(ctx, "metadata", idx, &case, &ObsErr::Enc(e), out),
+        }
+    });
+    // streams assembled from CONSTRUCTED predictive subframes (public constructors): every partition
+    // order the block length allows (down to one-sample partitions), predictor orders up to the
+    // length of the first partition - half of them exactly equal to it, so that the first
+    // partition carries no residual at all -, fixed orders 0..=4 and LPC orders 1..=24 with random
+    // coefficients / precisions / shifts, per-partition parameters 0..=14. The encoder never picks
+    // partitions shorter than 64 samples, so none of this is reachable from encoded streams.
+    let n = ctx.tier.pick(1500, 60_000);
+    run_cases(ctx, "constructed", n, &mut out, |idx, out| {
+        let mut rng = Rng::for_case(ctx.seed, "C15.constructed", idx);
+        let Some((case, stream)) = constructed_stream(&mut rng) else {
+            out.count("constructed_skipped");
+            return;
+        };
+        match enc::to_bytes(&stream) {
+            Ok(bytes) => {
+                let rep = refdec::decode_stream(&bytes);
+                let delivered = case.audio.samples.len();
+                let obs = Observed { stream, bytes, rep, delivered, reads: 0 };
+                out.evaluations += 1;
+                out.distinct.insert(case.key() ^ 0xC0_57);
+                if case.audio.recipe.contains("first_partition_all_warmup") {
+                    out.count("constructed_first_partition_all_warmup");
+                }
+                if case.audio.recipe.contains("part_len=1 ") {
+                    out.count("constructed_one_sample_partitions");
+                }
+                if let Some(i) = obs.rep.fatal() {
+                    out.violation(format!("C15|constructed-stream-malformed|{}", i.clause), format!("refdec: {}", i.detail), json!({"monitor": "C15", "sub": "constructed", "index": idx, "seed": ctx.seed, "tier": ctx.tier.name(), "case": case.describe()}));
+                } else if obs.rep.pcm != case.audio.samples {
+                    out.violation("C15|constructed-refdec-differs", "the reference decoder does not reproduce the signal the subframes were built from", json!({"monitor": "C15", "sub": "constructed", "index": idx, "seed": ctx.seed, "tier": ctx.tier.name(), "case": case.describe()}));
+                }
+                oracle_c15(ctx, "constructed", idx, &case, &obs, out);
+            }
+            Err(e) => report_obs_err(ctx, "constructed", idx, &case, &ObsErr::Ser(e, stream_placeholder()), out),
         }
     });
     // every block length 1..=32767 as a (final) frame: DC block through the frame-level entry
@@ -1173,7 +1313,7 @@ pub fn run_c15(ctx: &Ctx) -> i32 {
     });
     let fin = Finish {
         level: "exploration",
-        rule: "for every emitted stream: parser::stream consumes all bytes, the tree verifies, re-serialises to identical bytes and Decode returns the input; the first frames are also parsed alone with parser::frame; the first frames' subframes are parsed alone with parser::subframe at their channel's width; 'metadata' adds 0-3 unknown metadata blocks (lengths 0..1000, one in eight at 65535..300000 bytes) and includes the empty stream; 'blocklen' round-trips a frame of every block length 1..=32767; 'framenum' round-trips single frames at every length class of the coded frame number (2^7, 2^11, 2^16, 2^21, 2^26, 2^31 each -2..+2) and random 1..31-bit numbers; distinct by case hash",
+        rule: "for every emitted stream: parser::stream consumes all bytes, the tree verifies, re-serialises to identical bytes and Decode returns the input; the first frames are also parsed alone with parser::frame; the first frames' subframes are parsed alone with parser::subframe at their channel's width; 'metadata' adds 0-3 unknown metadata blocks (lengths 0..1000, one in eight at 65535..300000 bytes) and includes the empty stream; 'blocklen' round-trips a frame of every block length 1..=32767; 'constructed' round-trips streams assembled with the public constructors from fixed (order 0..=4) and LPC (order 1..=24) subframes at every partition order the block length allows, half of them with a predictor order equal to the length of the first partition, also checked against the reference decoder; 'framenum' round-trips single frames at every length class of the coded frame number (2^7, 2^11, 2^16, 2^21, 2^26, 2^31 each -2..+2) and random 1..31-bit numbers; distinct by case hash",
         assumptions: vec![],
         exhaustive: None,
         floors: vec![],
